@@ -34,7 +34,7 @@ import (
 
 const modPath = "github.com/couchbaselabs/rosmar"
 
-var nativeGoFuncs = map[string]bool{"parallelize": true, "updateView": true}
+var nativeGoFuncs = map[string]bool{"parallelize": os.Getenv("VINST_NO_NAMES") == "", "updateView": os.Getenv("VINST_NO_NAMES") == ""}
 
 func die(f string, a ...any) {
 	fmt.Fprintf(os.Stderr, "vinst: "+f+"\n", a...)
@@ -137,8 +137,16 @@ func main() {
 	}
 
 	stats := map[string]int{}
+	decls := map[string]*ast.FuncDecl{}
+	for _, f := range files {
+		for _, d := range f.Decls {
+			if fd, ok := d.(*ast.FuncDecl); ok && fd.Recv == nil {
+				decls[fd.Name.Name] = fd
+			}
+		}
+	}
 	for i, f := range files {
-		rw := &rewriter{fset: fset, info: info, stats: stats}
+		rw := &rewriter{fset: fset, info: info, stats: stats, decls: decls}
 		rw.file(f)
 		var buf bytes.Buffer
 		if err := format.Node(&buf, fset, f); err != nil {
@@ -170,6 +178,7 @@ func main() {
 }
 
 type rewriter struct {
+	decls   map[string]*ast.FuncDecl
 	fset    *token.FileSet
 	info    *types.Info
 	stats   map[string]int
@@ -329,8 +338,12 @@ func (rw *rewriter) stmt(s ast.Stmt, native bool) ast.Stmt {
 			}
 		}
 	case *ast.GoStmt:
-		s.Call = rw.expr(s.Call, native).(*ast.CallExpr)
-		if native {
+		// A goroutine that talks to its creator over channels (sends, ranges over a channel) or waits
+		// on a WaitGroup is a worker-pool goroutine: it stays native, like the pool it belongs to -
+		// its creator blocks natively on those channels, so the scheduler could never run it.
+		pool := native || rw.isPoolGoroutine(s.Call)
+		s.Call = rw.expr(s.Call, pool).(*ast.CallExpr)
+		if pool {
 			rw.stats["go_native"]++
 			return s
 		}
@@ -383,6 +396,46 @@ func (rw *rewriter) expr(e ast.Expr, native bool) ast.Expr {
 		e.X = rw.expr(e.X, native)
 	}
 	return e
+}
+
+// isPoolGoroutine inspects the body a go statement runs (a function literal, or a function of this
+// package called by name).
+func (rw *rewriter) isPoolGoroutine(call *ast.CallExpr) bool {
+	var body *ast.BlockStmt
+	switch f := call.Fun.(type) {
+	case *ast.FuncLit:
+		body = f.Body
+	case *ast.Ident:
+		if d := rw.decls[f.Name]; d != nil {
+			body = d.Body
+		}
+	}
+	if body == nil {
+		return false
+	}
+	found := false
+	ast.Inspect(body, func(n ast.Node) bool {
+		switch n := n.(type) {
+		case *ast.SendStmt:
+			found = true
+		case *ast.RangeStmt:
+			if rw.info != nil {
+				if tv, ok := rw.info.Types[n.X]; ok && tv.Type != nil {
+					if _, isChan := tv.Type.Underlying().(*types.Chan); isChan {
+						found = true
+					}
+				}
+			}
+		case *ast.CallExpr:
+			if sel, ok := n.Fun.(*ast.SelectorExpr); ok && sel.Sel.Name == "Wait" && rw.info != nil {
+				if tv, ok := rw.info.Types[sel.X]; ok && tv.Type != nil && strings.Contains(tv.Type.String(), "WaitGroup") {
+					found = true
+				}
+			}
+		}
+		return !found
+	})
+	return found
 }
 
 // go f(a, b)  ->  { vrtA0, vrtA1 := a, b; vrt.Go(func() { f(vrtA0, vrtA1) }) }
